@@ -15,6 +15,18 @@ def step (_ : Unit) (ws : List String) : Unit × String :=
   | ["!deadline", kind, mode, r, p, c, n] =>
     -- waiting on another caller's flight never sends by construction; everything else is judged in full
     ((), verdict (deadline (if kind == "cachewait" then "deadline" else mode) (b r) (b p) (b c) (b n)))
+  | ["!cacheread", _, fl, ver, hit, own] =>
+    match fl.toInt?, ver.toInt? with
+    | some f, some v => ((), verdict (cacheRead f v (b hit) (b own)))
+    | _, _ => ((), "bad-op")
+  | ["!flight", gets, nok, nerr, lh, lo] =>     -- the success case has an empty fault word
+    match gets.toNat?, nok.toNat?, nerr.toNat? with
+    | some g, some k, some e => ((), verdict (flight false g k e (b lh) (b lo)))
+    | _, _, _ => ((), "bad-op")
+  | ["!flight", _, gets, nok, nerr, lh, lo] =>
+    match gets.toNat?, nok.toNat?, nerr.toNat? with
+    | some g, some k, some e => ((), verdict (flight true g k e (b lh) (b lo)))
+    | _, _, _ => ((), "bad-op")
   | _ => ((), "bad-op")
 
 def main : IO Unit := Hex.lineLoop () step
